@@ -111,26 +111,31 @@ func closedGuards(fn *ssa.Function) []*ssa.If {
 		if !isHandle {
 			continue
 		}
-		// the true branch returns os.ErrClosed
-		retClosed := false
-		for _, in := range b.Succs[0].Instrs {
-			if r, ok := in.(*ssa.Return); ok {
-				for _, res := range r.Results {
-					for _, l := range leavesOf(res) {
-						if l.Kind == leafGlobal && l.V.Name() == "ErrClosed" {
-							retClosed = true
-						}
-					}
-				}
+		// the true side ends in a return that carries os.ErrClosed and never gets to use the handle (decided on paths:
+		// the return may sit behind the join of a "lock and check" helper that has been inlined back)
+		mentionsClosed := func(in ssa.Instruction) bool {
+			r, ok := in.(*ssa.Return)
+			if !ok {
+				return false
 			}
-			if st, ok := in.(*ssa.Store); ok {
-				for _, l := range leavesOf(st.Val) {
+			for _, res := range r.Results {
+				for _, l := range leavesOf(res) {
 					if l.Kind == leafGlobal && l.V.Name() == "ErrClosed" {
-						retClosed = true
+						return true
 					}
 				}
 			}
+			return false
 		}
+		usesHandle := func(in ssa.Instruction) bool {
+			u, ok := in.(*ssa.UnOp)
+			if !ok || u.Op != token.MUL {
+				return false
+			}
+			t, n, _, ok := fieldOf(u.X)
+			return ok && n == "handle" && typeName(t) == "File"
+		}
+		retClosed := reachFromBlock(b.Succs[0], mentionsClosed, nil) && !reachFromBlock(b.Succs[0], usesHandle, nil)
 		if retClosed {
 			out = append(out, iff)
 		}
@@ -147,86 +152,11 @@ func runC12(c *Ctx) {
 		return
 	}
 	// exported methods
-	var exported []*ssa.Function
-	ms := p.SSA.MethodSets.MethodSet(types.NewPointer(fileT))
-	for i := 0; i < ms.Len(); i++ {
-		sel := ms.At(i)
-		if !sel.Obj().Exported() {
-			continue
-		}
-		if f := p.SSA.MethodValue(sel); f != nil && f.Blocks != nil {
-			exported = append(exported, f)
-		}
-	}
-	sort.Slice(exported, func(i, j int) bool { return exported[i].Name() < exported[j].Name() })
+	exported := exportedFileMethods(p, fileT)
 	c.check(len(exported) >= 15, "R1", "exported File methods", "?", fmt.Sprintf("%d exported methods", len(exported)), fmt.Sprintf("only %d exported File methods found", len(exported)))
 
 	// ---------- R1 lock kind ----------
-	for _, m := range exported {
-		c.looked(fnName(m))
-		cone := fileCone(m)
-		writes, reads := false, false
-		for f := range cone {
-			for _, a := range fileAccessesIn(f) {
-				if a.Write {
-					writes = true
-				} else {
-					reads = true
-				}
-			}
-		}
-		key := "lock of " + fnName(m)
-		if !writes && !reads {
-			c.okT("R1", key, p.Pos(m.Pos()), "touches neither handle nor offset")
-			continue
-		}
-		need := "RLock"
-		if writes {
-			need = "Lock"
-		}
-		// every access in m itself and every call into the File cone must hold the lock
-		var points []ssa.Instruction
-		for _, a := range fileAccessesIn(m) {
-			points = append(points, a.In)
-		}
-		eachInstr(m, func(in ssa.Instruction) {
-			if cc := callOf(in); cc != nil {
-				if f := cc.StaticCallee(); f != nil && f != m && isClientFile(f) && f.Blocks != nil {
-					if _, isDefer := in.(*ssa.Defer); !isDefer {
-						points = append(points, in)
-					}
-				}
-			}
-			if mc, ok := in.(*ssa.MakeClosure); ok {
-				// closures that touch the fields
-				cf := mc.Fn.(*ssa.Function)
-				if len(fileAccessesIn(cf)) > 0 {
-					// deferred closures run at return, still under the deferred unlock order: the unlock is deferred first, so runs last
-					points = append(points, in)
-				}
-			}
-		})
-		good := true
-		var bad ssa.Instruction
-		have := ""
-		for _, pt := range points {
-			h := heldAt(pt, m.Params[0], "File.mu")
-			if h == "" || (need == "Lock" && h != "Lock") {
-				good = false
-				bad = pt
-				have = h
-			}
-		}
-		// the unlock must be deferred (a plain unlock could release before a later access)
-		if good {
-			c.ok("R1", key, p.Pos(m.Pos()), "holds f.mu."+need+" (or stronger) at every access and helper call")
-		} else {
-			if have == "" {
-				have = "no lock"
-			}
-			c.bad("R1", key, pos(bad), fmt.Sprintf("%s can reach a %s of handle/offset and needs f.mu.%s, but holds %s here", fnName(m), map[bool]string{true: "store", false: "load"}[writes], need, have))
-		}
-	}
+	checkFileLockKind(c, "R1", exported, nil)
 	// unexported File helpers are only called from File functions
 	for _, f := range fileFuncs(p) {
 		if f.Parent() != nil || f.Object() == nil || f.Object().Exported() {
@@ -1121,6 +1051,35 @@ func checkOffsetStores(c *Ctx, rule string, only map[string]bool) {
 			c.check(matched, rule, "store to offset in "+fnName(f), pos(st), desc, "the offset is set to "+affineOf(st.Val).String()+", expected: "+desc)
 		}
 	}
+	// the bytes a positional transfer moved are added to the offset whatever else it returned: n > 0 together with an
+	// error (a Read that hits the end of the file with room left in the buffer, a Write refused part-way) still moves
+	// the position.  No path from the call to a return — or, in ReadFrom's loop, to the next chunk — goes around the store.
+	for _, spec := range []struct{ host, callee string }{{"(*File).Read", "readAt"}, {"(*File).Write", "writeAt"}, {"(*File).ReadFrom", "writeChunkAt"}} {
+		if only != nil && !only[spec.host] {
+			continue
+		}
+		fn := p.Func(spec.host)
+		if fn == nil {
+			c.missing(rule, spec.host)
+			continue
+		}
+		isOffStore := func(in ssa.Instruction) bool {
+			st, ok := in.(*ssa.Store)
+			if !ok {
+				return false
+			}
+			t, n, _, ok := fieldOf(st.Addr)
+			return ok && n == "offset" && typeName(t) == "File"
+		}
+		calls := callsWhere(fn, func(cc *ssa.CallCommon) bool { return calleeName(cc) == spec.callee })
+		for i, call := range calls {
+			call := call
+			isEnd := func(in ssa.Instruction) bool { return isReturn(in) || in == call }
+			c.check(!reachAvoiding(fn, call, isEnd, isOffStore), rule, fmt.Sprintf("%s: offset advanced after %s #%d on every path", spec.host, spec.callee, i+1), pos(call),
+				"no return (or next chunk) is reached without the store", "the offset can stay where it was although "+spec.callee+" moved bytes (on the path where it also returned an error): the next Read delivers the same bytes again, the next Write overwrites what was just written")
+		}
+		c.check(len(calls) >= 1, rule, spec.host+" transfers at the offset", p.Pos(fn.Pos()), fmt.Sprintf("%d calls of %s", len(calls), spec.callee), spec.host+" no longer calls "+spec.callee)
+	}
 	if only != nil {
 		nStores += 7
 	}
@@ -1638,4 +1597,95 @@ func reducerState(fn *ssa.Function) (first *ssa.Alloc, varName, offField, errFie
 		}
 	})
 	return
+}
+
+// checkFileLockKind (C12.R1; for the four transfer methods also C01.R16): an exported File method holds f.mu — exclusively
+// when anything it can reach stores the offset or the handle — at every access and at every call into the File's helpers.
+func checkFileLockKind(c *Ctx, rule string, exported []*ssa.Function, only map[string]bool) {
+	p := c.P
+	pos := func(in ssa.Instruction) string { return p.Pos(in.Pos()) }
+	for _, m := range exported {
+		if only != nil && !only[fnName(m)] {
+			continue
+		}
+		c.looked(fnName(m))
+		cone := fileCone(m)
+		writes, reads := false, false
+		for f := range cone {
+			for _, a := range fileAccessesIn(f) {
+				if a.Write {
+					writes = true
+				} else {
+					reads = true
+				}
+			}
+		}
+		key := "lock of " + fnName(m)
+		if !writes && !reads {
+			c.okT(rule, key, p.Pos(m.Pos()), "touches neither handle nor offset")
+			continue
+		}
+		need := "RLock"
+		if writes {
+			need = "Lock"
+		}
+		// every access in m itself and every call into the File cone must hold the lock
+		var points []ssa.Instruction
+		for _, a := range fileAccessesIn(m) {
+			points = append(points, a.In)
+		}
+		eachInstr(m, func(in ssa.Instruction) {
+			if cc := callOf(in); cc != nil {
+				if f := cc.StaticCallee(); f != nil && f != m && isClientFile(f) && f.Blocks != nil {
+					if _, isDefer := in.(*ssa.Defer); !isDefer {
+						points = append(points, in)
+					}
+				}
+			}
+			if mc, ok := in.(*ssa.MakeClosure); ok {
+				// closures that touch the fields
+				cf := mc.Fn.(*ssa.Function)
+				if len(fileAccessesIn(cf)) > 0 {
+					// deferred closures run at return, still under the deferred unlock order: the unlock is deferred first, so runs last
+					points = append(points, in)
+				}
+			}
+		})
+		good := true
+		var bad ssa.Instruction
+		have := ""
+		for _, pt := range points {
+			h := heldAt(pt, m.Params[0], "File.mu")
+			if h == "" || (need == "Lock" && h != "Lock") {
+				good = false
+				bad = pt
+				have = h
+			}
+		}
+		// the unlock must be deferred (a plain unlock could release before a later access)
+		if good {
+			c.ok(rule, key, p.Pos(m.Pos()), "holds f.mu."+need+" (or stronger) at every access and helper call")
+		} else {
+			if have == "" {
+				have = "no lock"
+			}
+			c.bad(rule, key, pos(bad), fmt.Sprintf("%s can reach a %s of handle/offset and needs f.mu.%s, but holds %s here", fnName(m), map[bool]string{true: "store", false: "load"}[writes], need, have))
+		}
+	}
+}
+
+func exportedFileMethods(p *Program, fileT types.Type) []*ssa.Function {
+	var exported []*ssa.Function
+	ms := p.SSA.MethodSets.MethodSet(types.NewPointer(fileT))
+	for i := 0; i < ms.Len(); i++ {
+		sel := ms.At(i)
+		if !sel.Obj().Exported() {
+			continue
+		}
+		if f := p.SSA.MethodValue(sel); f != nil && f.Blocks != nil {
+			exported = append(exported, f)
+		}
+	}
+	sort.Slice(exported, func(i, j int) bool { return exported[i].Name() < exported[j].Name() })
+	return exported
 }
